@@ -178,9 +178,8 @@ class Cnl2asp:
         entity_type = SymbolType.DEFAULT
         if SignatureManager.is_temporal_entity(entity.get_name()):
             entity_type = SymbolType.TEMPORAL
-        if entity.get_attributes() != entity.get_keys():
-            for key in entity.get_keys():
-                keys.append(self.__convert_attribute(entity.get_name(), key))
+        for key in entity.get_keys():
+            keys.append(self.__convert_attribute(entity.get_name(), key))
         return Symbol(entity.get_name(), keys, keys + attributes, entity_type)
 
     def get_symbols(self) -> list[Symbol]:
